@@ -421,11 +421,16 @@ class C10(Check):
             alive[0] = False
         counts = []
         sib_msgs = [[bytes.fromhex(x) for x in s] for s in case["sib"]]
+        shut_at = [None]                                   # bytes written to connection 0 when it was first seen shut down
+        def is_shut(i): return workers[i] not in loop._workers or workers[i].closed or workers[i]._shutdown_send
         def feed(i, data):
-            # OFConnection.close() = IOWorker.shutdown(): the connection stops processing (the offending bytes stay at the
-            # head of its buffer) and its send side is shut down once flushed
-            if workers[i] not in loop._workers or workers[i].closed or workers[i]._shutdown_send: return False
-            socks[i].chunks.append(data); iteration([workers[i]]); return True
+            # OFConnection.close() = IOWorker.shutdown(send): the connection stops processing (the offending bytes stay at
+            # the head of its buffer) and its send side is shut down once flushed — but the worker stays in the loop and
+            # whatever the peer still sends is still read: the loop must survive that too (no spinning on the same bytes)
+            if workers[i] not in loop._workers or workers[i].closed: return False
+            socks[i].chunks.append(data); iteration([workers[i]])
+            if i == 0 and shut_at[0] is None and is_shut(0): shut_at[0] = len(socks[0].sent) + len(workers[0].send_buf)
+            return True
         rx, snap = case.get("rx"), {}
         def st_now():
             return "spin" if state["spin"] else ("closed" if (workers[0] not in loop._workers or workers[0].closed or workers[0]._shutdown_send) else "alive")
@@ -439,7 +444,8 @@ class C10(Check):
             snap["rx_status"] = st_now()
         for n, ch in enumerate(chunks):
             if rx and n == rx["after"]: inject()
-            if feed(0, ch): counts.append(len(delivered))
+            was_shut = is_shut(0)
+            if feed(0, ch) and not was_shut: counts.append(len(delivered))     # the model stops at the shutdown; later chunks only test survival
             for k in (1, 2):
                 if n < len(sib_msgs[k - 1]): feed(k, sib_msgs[k - 1][n])
         if rx and rx["after"] >= len(chunks): inject()
@@ -448,6 +454,7 @@ class C10(Check):
         if state["spin"]: self.spins += 1
         st = "spin" if state["spin"] else ("closed" if (workers[0].closed or workers[0]._shutdown_send) else "alive")
         errs, sent, p = [], socks[0].sent + bytes(workers[0].send_buf), 0
+        if shut_at[0] is not None: sent = sent[:shut_at[0]]     # replies up to the shutdown (a shut connection that is sent more data repeats its last word)
         while p + 12 <= len(sent):                        # error replies the offender was sent: (type, code, xid)
             ln = (sent[p + 2] << 8) | sent[p + 3]
             if ln < 8: break
